@@ -16,14 +16,23 @@ var Scalars = []string{
 	"Int128", "UInt128", "Int256", "UInt256", "Float32", "Float64",
 	"String", "Bool", "UUID", "IPv4", "IPv6",
 	"FixedString(8)", "FixedString(16)", "FixedString(3)", "FixedString(20)",
+	"Decimal32", "Decimal64", "Decimal128", "Decimal256",
 }
 
 // TopOnly types are generated only as whole columns (raw date/time storage).
-var TopOnly = []string{"Date", "Date32", "DateTime", "DateTime64(3)", "DateTime64(9)", "Point"}
+var TopOnly = []string{"Date", "Date32", "DateTime", "DateTime64(3)", "DateTime64(9)", "Point",
+	"Enum8('a' = 1, 'b' = 2)", "Enum8('neg' = -128, 'zero' = 0, 'max' = 127, 'x y' = 5)", "Enum16('lo' = -32768, 'a' = 1, 'big' = 300, 'hi' = 32767)",
+	"IntervalSecond", "IntervalWeek", "IntervalYear",
+}
 
 // Maps with a static instantiation in NewCol.
 var Maps = []string{
 	"Map(String,String)", "Map(String,UInt64)", "Map(Int32,String)", "Map(String,Array(String))", "Map(LowCardinality(String),String)",
+}
+
+// Nested arrays with a static instantiation in NewCol.
+var Nested = []string{
+	"Array(Array(String))", "Array(Array(UInt64))", "Array(Array(Nullable(String)))", "Array(Array(Array(UInt16)))", "Array(Array(LowCardinality(String)))",
 }
 
 var supported = map[string]bool{}
@@ -96,6 +105,9 @@ func drawType(c *choice.Stream, depth int, top bool) string {
 		// Nullable over a scalar (Nullable cannot wrap composites)
 		return "Nullable(" + Scalars[c.Draw("type.scalar", len(Scalars))] + ")"
 	case 2:
+		if c.Bool("type.nested", 1, 6) {
+			return Nested[c.Draw("type.nested.i", len(Nested))]
+		}
 		return "Array(" + drawType(c, depth-1, false) + ")"
 	case 3:
 		switch c.Draw("type.lc", 3) {
@@ -182,6 +194,9 @@ func boundaryU(r *rand.Rand, bits int) uint64 {
 func Value(r *rand.Rand, t *refproto.Type) any {
 	switch t.Kind {
 	case refproto.KInt:
+		if len(t.Enum) > 0 {
+			return t.Enum[r.UintN(uint(len(t.Enum)))].Val // only defined values are valid data
+		}
 		u := boundaryU(r, 8*t.Size)
 		sh := uint(64 - 8*t.Size)
 		return int64(u<<sh) >> sh
